@@ -38,3 +38,13 @@ func MITVectors() map[string]string {
 		"MarshaledKRB5enc_dataKVNONegOne":                           testdata.MarshaledKRB5enc_dataKVNONegOne,
 	}
 }
+
+// PACSamples returns the two captured KERB_VALIDATION_INFO buffers (hex).
+func PACSamples() (gokrb5Hex, trustHex string) {
+	return testdata.MarshaledPAC_Kerb_Validation_Info, testdata.MarshaledPAC_Kerb_Validation_Info_Trust
+}
+
+// PACSampleFull returns the captured complete PAC, and the keytab holding the service key it was signed with.
+func PACSampleFull() (pacHex, keytabHex string) {
+	return testdata.MarshaledPAC_AD_WIN2K_PAC, testdata.KEYTAB_SYSHTTP_TEST_GOKRB5
+}
